@@ -10,7 +10,8 @@ that is shared (chunk files of an earlier run under every plausible buffer name,
 after a successful run, two calls at the same time).
 
 Every run of a real stage happens in a child interpreter under strace
-(harness/fstrace.py).  Per traced run:
+(harness/fstrace.py); the trace contains the run's effects AND its observations (stat / exists / access /
+opening a directory / calls that failed: `Stat p answer`).  Per traced run:
  (a) correspondence: the observed operation trace is accepted by the extracted acceptor
      (coq/Model/FsModel.v, tag 1901) and the model's final file system equals the observed
      directory listing (names, kinds, and unchanged content where the model says unchanged);
@@ -1009,8 +1010,21 @@ def run(ctx):
                 'operations on the sandbox directories including a Mkdir and an Unlink; a concurrent pair is '
                 'non-trivial when the two runs overlap in time and the merged trace switches between them')
     ctx.assumptions += [
-        'observed through strace -f on openat/open/creat/mkdir(at)/unlink(at)/rmdir/rename(at)(2)/getdents64: stat-like '
-        'probes (exists(), is_file()) are not operations of the model',
+        'observed through strace -f on openat/open/creat/mkdir(at)/unlink(at)/rmdir/rename(at)(2)/getdents64 and on the '
+        'observations stat/lstat/newfstatat/statx/access/faccessat(2)/readlink(at): every look at a path below the sandbox '
+        'roots (exists(), is_file(), os.stat, opening a directory, a call that fails with ENOENT/ENOTDIR/EEXIST/EISDIR) is '
+        'an operation `Stat p answer` of the model, refused (code 12) unless p is declared, an ancestor of a declared path, '
+        'or at/below a name the run made itself in the scratch root; fstat of an open descriptor (AT_EMPTY_PATH) is not an '
+        'operation (the open is); a failed call with another errno is reported (corr:fstrace.failed-call-unmapped)',
+        'looks (Stat) at paths below the working directory of the run -- which is none of the directories the property '
+        'speaks about -- are counted (distribution.looks-into-working-directory-dropped) and not given to the acceptor: '
+        "observed is linecache resolving the relative source name 'h5py/_objects.pyx' of a Cython frame when run_mapping "
+        'formats the traceback of a failing run; anything else there (a file made, read, listed) stays in the trace',
+        'strace -f logs a call when it handles its exit: a call of one process that succeeded on p (or was told p exists) '
+        'and is logged within 50 ms behind the removal of p by ANOTHER process, with nothing re-creating p in between, is moved '
+        'in front of that removal, and a call that was told p is absent, logged while p exists just in front of its removal '
+        'by another process, is moved behind it (fstrace.causal_order; orphaned workers reading while the finally block of a '
+        'failing run_mapping removes; counted in distribution.trace-causally-reordered)',
         'HDF5 H5Fcreate probes an existing file with open(O_RDWR) before truncating it: the probe is dropped when the next '
         'operation of that process on that path is the truncating create (fstrace.to_ops)',
         'gc.collect() runs before a run counts as returned (destructor-time cleanup of FileTracker / AnnDataRowIterator)',
